@@ -21,7 +21,11 @@
  * look, and <comments> is the sorted list `entryTime:persistent,...` of the existing comments of entry type
  * acknowledgement (`-` if none).
  *
- * Modes:  gen --seed S --tier quick|thorough [--datadir D]     ops FILE [--datadir D]
+ * Modes:  gen --seed S --tier quick|thorough [--datadir D] [--jobs J] [--len L] [--random N]
+ *             exhaustive enumeration + seeded random histories, split over J exec'ed worker processes
+ *             (`worker` mode, internal) whose outputs are concatenated in a fixed order
+ *         ops FILE [--datadir D]       replay the C/R/A/X/T lines of FILE (text after '|' ignored)
+ *         (env C06_DEBUG=1 with `ops`: Icinga's log on stdout, for diagnosing a failing set-up)
  */
 #include "common.hpp"
 #include "base/configuration.hpp"
